@@ -188,7 +188,11 @@ class Prop:
                         sk = None
                     else:
                         used_sk.add(sk)
-                props.append((sk, 'k%d' % cnt[0], value(i, depth)))
+                # a plain key may look like a type name (it is quoted in the text): `"@t3": ...` is a property, not a shortcut
+                pk = ('@t%d' % rng.randint(1, 9)) if rng.random() < 0.15 else ('@k%d' % cnt[0]) if rng.random() < 0.05 else 'k%d' % cnt[0]
+                if pk in [q[1] for q in props]:
+                    pk = 'k%d' % cnt[0]
+                props.append((sk, pk, value(i, depth)))
             return ('O', allof, ap, props)
 
         def body(i):
@@ -219,6 +223,9 @@ class Prop:
             'or-name': ('O', [], None, [(None, 'a', ('L', 'int', None, [('S', None), ('N', 2)]))]),
             'or-set': ('O', [], None, [(None, 'a', ('L', 'int', None, [('S', None), ('S', 2)]))]),
             'or-set-only': ('O', [], None, [(None, 'a', ('L', 'int', None, [('S', 1), ('S', 2)]))]),
+            'quoted-key-like-type': ('O', [], None, [(None, '@t3', ('M', [1]))]),
+            'quoted-key-and-shortcut': ('O', [], None, [(None, '@t3', ('M', [1])), (3, None, ('M', [2]))]),
+            'quoted-key-like-type-deep': ('O', [], None, [(None, '@t2', ('O', [], None, [(None, '@t1', ('A', [('L', 'int', 1, [])]))]))]),
             'allof': ('O', [4], None, []),
             'additional': ('O', [], 2, []),
             'array-item': ('A', [('M', [1]), ('A', [('M', [2])])]),
